@@ -247,6 +247,58 @@ var alphabet = map[string]opFn{
 		st, err := s.ts["MT"].Stack(1, s.ts["MS"], p)
 		return append(flat(q), must(st, err)...)
 	},
+	// ---- tensor-scalar operations with goroutine-specific scalars (the scalar travels through pooled headers):
+	// every comparison and arithmetic operator, scalar on either side, contiguous and iterator paths
+	"CmpScalar": func(s *sharedSet, p *tensor.Dense, r *rand.Rand) []float64 {
+		a := s.ts[[]string{"M", "MT", "MS"}[r.Intn(3)]]
+		k := float64(r.Intn(12))
+		fs := []func(a, b interface{}, opts ...tensor.FuncOpt) (tensor.Tensor, error){tensor.Gt, tensor.Gte, tensor.Lt, tensor.Lte, tensor.ElEq, tensor.ElNe}
+		f := fs[r.Intn(len(fs))]
+		var opts []tensor.FuncOpt
+		if r.Intn(2) == 0 {
+			opts = append(opts, tensor.AsSameType())
+		}
+		if r.Intn(2) == 0 {
+			return must(f(a, k, opts...))
+		}
+		return must(f(k, a, opts...))
+	},
+	"ArithScalar": func(s *sharedSet, p *tensor.Dense, r *rand.Rand) []float64 {
+		a := s.ts[[]string{"M", "MT", "MS"}[r.Intn(3)]]
+		k := float64(1000 * (1 + r.Intn(9)))
+		fs := []func(a, b interface{}, opts ...tensor.FuncOpt) (tensor.Tensor, error){tensor.Add, tensor.Sub, tensor.Mul, tensor.Div, tensor.Pow, tensor.Mod}
+		f := fs[r.Intn(len(fs))]
+		if r.Intn(2) == 0 {
+			return must(f(a, k))
+		}
+		return must(f(k, a))
+	},
+	"PrivArithScalar": func(s *sharedSet, p *tensor.Dense, r *rand.Rand) []float64 {
+		k := float64(1000 * (1 + r.Intn(9)))
+		q := p.Clone().(*tensor.Dense)
+		if r.Intn(2) == 0 {
+			q.T()
+		}
+		var opts []tensor.FuncOpt
+		switch r.Intn(3) {
+		case 0:
+			opts = append(opts, tensor.UseUnsafe())
+		case 1:
+			opts = append(opts, tensor.WithReuse(tensor.New(tensor.WithShape(q.Shape()...), tensor.Of(tensor.Float64))))
+		}
+		if r.Intn(2) == 0 {
+			return must(tensor.Add(q, k, opts...))
+		}
+		return must(tensor.Sub(k, q, opts...))
+	},
+	"MinMaxScalar": func(s *sharedSet, p *tensor.Dense, r *rand.Rand) []float64 {
+		a := s.ts[[]string{"M", "MT", "MS"}[r.Intn(3)]]
+		k := float64(r.Intn(12))
+		if r.Intn(2) == 0 {
+			return must(tensor.MaxBetween(a, k))
+		}
+		return must(tensor.MinBetween(k, a))
+	},
 	"Repeat": func(s *sharedSet, p *tensor.Dense, r *rand.Rand) []float64 {
 		return must(tensor.Repeat(s.ts[[]string{"M", "MT", "MS"}[r.Intn(3)]], r.Intn(2), 2))
 	},
@@ -344,15 +396,46 @@ func main() {
 			ids[reflect.ValueOf(s.ts[nme]).Pointer()] = nme
 		}
 		res := map[string][][]string{}
+		pools := map[string][][]interface{}{} // per operation: its pool traffic (first run), objects numbered per operation
 		for _, op := range opNames {
 			var writes [][]string
+			free := map[uintptr]bool{} // pool protocol: objects currently lying in a pool
+			slot := map[uintptr]int{}  // first run only: the op's own numbering of the pool objects it touches
+			var pseq [][]interface{}
+			run := 0
 			setHook(func(ev string, size int, id uintptr) {
 				if nme, ok := ids[id]; ok && len(ev) > 9 && ev[:9] == "MetaWrite" {
 					writes = append(writes, []string{"wr", nme, ev})
 				}
+				if id == 0 {
+					return
+				}
+				if run == 0 && len(ev) > 6 && (ev[:6] == "Borrow" || ev[:6] == "Return") && ev != "BorrowInts" && ev != "ReturnInts" {
+					k, ok := slot[id]
+					if !ok {
+						k = len(slot) + 1
+						slot[id] = k
+					}
+					kind := "put"
+					if ev[:6] == "Borrow" {
+						kind = "get"
+					}
+					pseq = append(pseq, []interface{}{kind, ev[6:], k})
+				}
+				switch {
+				case len(ev) > 6 && ev[:6] == "Borrow":
+					delete(free, id)
+				case len(ev) > 6 && ev[:6] == "Return":
+					if free[id] {
+						// the same object is in the pool twice: two later borrowers (goroutines) will share it
+						writes = append(writes, []string{"pool", ev, "object returned to its pool twice without being borrowed in between"})
+					}
+					free[id] = true
+				}
 			})
 			before := snapshotShared(s)
 			for k := 0; k < 12; k++ {
+				run = k
 				alphabet[op](s, tensor.New(tensor.WithShape(3, 4), tensor.WithBacking(rangeF(12, 1))), rand.New(rand.NewSource(int64(k))))
 			}
 			setHook(nil)
@@ -364,8 +447,12 @@ func main() {
 				writes = [][]string{}
 			}
 			res[op] = writes
+			if pseq == nil {
+				pseq = [][]interface{}{}
+			}
+			pools[op] = pseq
 		}
-		b, _ := json.Marshal(res)
+		b, _ := json.Marshal(map[string]interface{}{"writes": res, "pool": pools})
 		fmt.Println(string(b))
 	case "stress":
 		// every operation of the alphabet against every operation (incl. itself), several goroutines each
